@@ -189,6 +189,12 @@ type qInterp struct {
 	// dependency tracking (NTTSCHED, exact mode): hist[cell] is the sequence of the sets of cells (coefficients and
 	// table entries) each value stored into the cell was computed from
 	trackDeps  bool
+	// ring level (MONOSPEC): the ring degree answered for r.N(), signs in the dependencies (a value subtracted from a
+	// multiple of the modulus is the negation of what it was computed from), dependencies resolved through the cells
+	// written during the run (so that what is stored in the output is expressed in the input)
+	ringN     int64
+	trackSign bool
+	resolved  map[string]string
 	hist       map[string][]string
 	histPos    map[string][]token.Pos
 	lastRetDep []string
@@ -308,6 +314,23 @@ func joinRetDeps(a, b []string) []string {
 	return r
 }
 
+// depNegate flips the sign of every entry of a dependency set ("-p1#3" <-> "p1#3").
+func depNegate(d string) string {
+	if d == "" {
+		return ""
+	}
+	parts := strings.Split(d, ",")
+	for i, p := range parts {
+		if strings.HasPrefix(p, "-") {
+			parts[i] = p[1:]
+		} else {
+			parts[i] = "-" + p
+		}
+	}
+	sort.Strings(parts)
+	return strings.Join(parts, ",")
+}
+
 // depOf returns the cells the value of a uint64 expression is computed from: a coefficient or table entry read by
 // index is itself, a local is what it was assigned, an operation or a call is the union over its operands.
 func (q *qInterp) depOf(f *qFrame, x ast.Expr) string {
@@ -325,11 +348,22 @@ func (q *qInterp) depOf(f *qFrame, x ast.Expr) string {
 	case *ast.IndexExpr:
 		if isUint64(q.info.TypeOf(v)) {
 			if sym, key := q.cellKey(f, v); sym != "" {
+				if q.resolved != nil {
+					if d, ok := q.resolved[key]; ok {
+						return d
+					}
+				}
 				return key
 			}
 		}
 		return ""
 	case *ast.BinaryExpr:
+		if q.trackSign && v.Op == token.SUB {
+			// q - x, 2q - x: the negation of x modulo q
+			if e, ok := q.eval(f, v.X).exact(); ok && e.a > 0 && e.b == 0 {
+				return depNegate(q.depOf(f, v.Y))
+			}
+		}
 		return depUnion(q.depOf(f, v.X), q.depOf(f, v.Y))
 	case *ast.UnaryExpr:
 		return q.depOf(f, v.X)
@@ -364,6 +398,9 @@ func (q *qInterp) noteStore(f *qFrame, lhs ast.Expr, dep string, pos token.Pos) 
 			if sym, key := q.cellKey(f, l); sym != "" {
 				q.hist[key] = append(q.hist[key], dep)
 				q.histPos[key] = append(q.histPos[key], pos)
+				if q.resolved != nil {
+					q.resolved[key] = dep
+				}
 			}
 		}
 	}
@@ -616,6 +653,11 @@ func (q *qInterp) evalInt(f *qFrame, x ast.Expr) ival {
 			return ival{true, a.v | b.v}
 		}
 	case *ast.CallExpr:
+		if q.ringN > 0 && len(v.Args) == 0 {
+			if se, ok := unparen(v.Fun).(*ast.SelectorExpr); ok && se.Sel.Name == "N" {
+				return ival{true, q.ringN}
+			}
+		}
 		if isBuiltinCall(q.info, v, "len") && len(v.Args) == 1 && q.slen != nil {
 			if n := q.sliceLen(f, v.Args[0]); n.known {
 				return n
@@ -1310,6 +1352,19 @@ func (q *qInterp) sliceLen(f *qFrame, x ast.Expr) ival {
 // symOf resolves a slice-valued expression to its abstract symbol and the offset of its first element.
 func (q *qInterp) symOf(f *qFrame, x ast.Expr) (string, ival) {
 	x = unparen(x)
+	// ring level: the residues of a polynomial operand, `p1.Coeffs[i]` (one representative residue is analysed)
+	if q.ringN > 0 {
+		if ix, ok := x.(*ast.IndexExpr); ok {
+			if se, ok := unparen(ix.X).(*ast.SelectorExpr); ok && se.Sel.Name == "Coeffs" {
+				if id, ok := unparen(se.X).(*ast.Ident); ok {
+					o := q.info.Uses[id]
+					if s, ok := f.sym[o]; ok {
+						return s, ival{true, 0}
+					}
+				}
+			}
+		}
+	}
 	switch v := x.(type) {
 	case *ast.Ident:
 		o := q.info.Uses[v]
@@ -1462,6 +1517,45 @@ func (q *qInterp) stmt(f *qFrame, st ast.Stmt) *qFrame {
 				f.returned = true
 				return f
 			}
+			// copy(dst, src) between tracked slices of known length: coefficient by coefficient
+			if q.exact && isBuiltinCall(q.info, call, "copy") && len(call.Args) == 2 {
+				ds, db := q.symOf(f, call.Args[0])
+				ss, sb := q.symOf(f, call.Args[1])
+				dn, sn := q.sliceLen(f, call.Args[0]), q.sliceLen(f, call.Args[1])
+				if ds != "" && ss != "" && db.known && sb.known && dn.known && sn.known {
+					n := dn.v
+					if sn.v < n {
+						n = sn.v
+					}
+					type cp struct {
+						v   qitv
+						dep string
+					}
+					vals := make([]cp, n)
+					for i := int64(0); i < n; i++ {
+						key := fmt.Sprintf("%s#%d", ss, sb.v+i)
+						d := key
+						if q.resolved != nil {
+							if r, ok := q.resolved[key]; ok {
+								d = r
+							}
+						}
+						vals[i] = cp{q.readCell(ss, key), d}
+					}
+					for i := int64(0); i < n; i++ {
+						key := fmt.Sprintf("%s#%d", ds, db.v+i)
+						q.writeCell(ds, key, vals[i].v, call.Pos())
+						if q.trackDeps {
+							q.hist[key] = append(q.hist[key], vals[i].dep)
+							q.histPos[key] = append(q.histPos[key], call.Pos())
+							if q.resolved != nil {
+								q.resolved[key] = vals[i].dep
+							}
+						}
+					}
+					return f
+				}
+			}
 			q.call(f, call)
 		}
 		return f
@@ -1547,6 +1641,13 @@ func (q *qInterp) stmt(f *qFrame, st ast.Stmt) *qFrame {
 	case *ast.ForStmt:
 		return q.forStmt(f, s)
 	case *ast.RangeStmt:
+		// ring level: the loop over the sub-rings is analysed for one representative residue
+		if q.ringN > 0 && strings.Contains(exprString(s.X), "SubRings") {
+			if s.Key != nil {
+				q.assign(f, s.Key, qTop, ival{true, 0}, true, 0, s.Pos())
+			}
+			return q.loopBody(f, s.Body.List)
+		}
 		// a range over a table of integer rows built by the function: one iteration per row, the value variable is the row
 		if id, ok := unparen(s.X).(*ast.Ident); ok {
 			if rows, ok := f.tab[q.info.Uses[id]]; ok && len(rows) <= 128 {
@@ -1614,6 +1715,11 @@ func (q *qInterp) stmt(f *qFrame, st ast.Stmt) *qFrame {
 							key := fmt.Sprintf("%s#%d", sym, b.v+i)
 							v = q.readCell(sym, key)
 							dep = key
+							if q.resolved != nil {
+								if r, ok := q.resolved[key]; ok {
+									dep = r
+								}
+							}
 						}
 						_ = ix
 						q.assign(f, s.Value, v, ival{}, false, 0, s.Pos())
@@ -1853,6 +1959,26 @@ func (q *qInterp) assignStmt(f *qFrame, s *ast.AssignStmt) *qFrame {
 			}
 		}
 	}
+	// ring level: a scratch polynomial of the ring is a fresh symbol whose coefficients are zero
+	if q.ringN > 0 && len(s.Lhs) == 1 && len(s.Rhs) == 1 {
+		if call, ok := unparen(s.Rhs[0]).(*ast.CallExpr); ok && len(call.Args) == 0 {
+			if se, ok := unparen(call.Fun).(*ast.SelectorExpr); ok && se.Sel.Name == "NewPoly" {
+				if id, ok := unparen(s.Lhs[0]).(*ast.Ident); ok {
+					o := q.info.Defs[id]
+					if o == nil {
+						o = q.info.Uses[id]
+					}
+					if o != nil {
+						f.sym[o] = id.Name
+						f.base[o] = ival{true, 0}
+						q.cells[id.Name] = qconst(0)
+						q.slen[id.Name] = q.ringN
+						return f
+					}
+				}
+			}
+		}
+	}
 	// tables of integer rows: `layers := make([]layer, 0, k)`, `layers = append(layers, layer{m: m, t: t})`,
 	// `layers := []layer{{…}, …}`
 	if len(s.Lhs) == 1 && len(s.Rhs) == 1 {
@@ -1964,6 +2090,22 @@ func (q *qInterp) assignStmt(f *qFrame, s *ast.AssignStmt) *qFrame {
 						n = ival{true, cur.v << uint(n.v)}
 					case token.SHR_ASSIGN:
 						n = ival{true, cur.v >> uint(n.v)}
+					case token.REM_ASSIGN:
+						if n.v != 0 {
+							n = ival{true, cur.v % n.v}
+						} else {
+							n = ival{}
+						}
+					case token.QUO_ASSIGN:
+						if n.v != 0 {
+							n = ival{true, cur.v / n.v}
+						} else {
+							n = ival{}
+						}
+					case token.AND_ASSIGN:
+						n = ival{true, cur.v & n.v}
+					case token.OR_ASSIGN:
+						n = ival{true, cur.v | n.v}
 					default:
 						n = ival{}
 					}
